@@ -27,14 +27,14 @@ def fixtures():
 PROFILE = {
     "C01": dict(),
     "C02": dict(),
-    "C03": dict(min_tasks=3),
+    "C03": dict(min_tasks=3, p_res_absence=0.4),
     "C04": dict(p_res_absence=0.45),
     "C06": dict(),
     "C07": dict(),
     "C13": dict(min_tasks=2, two_parents=0.25),
     "C14": dict(min_tasks=2),
 }
-FACILITY_RICH_SHARE = {"C13": 0.7, "C04": 0.4, "C03": 0.3, "C06": 0.4, "C14": 0.4}
+FACILITY_RICH_SHARE = {"C13": 0.7, "C04": 0.4, "C03": 0.45, "C06": 0.4, "C14": 0.4}
 USE_PAIRS = ("C01", "C02", "C06")
 
 
